@@ -132,21 +132,46 @@ Fixpoint names_wf_t (anc : list str) (t : tree) : bool :=
   end.
 
 (* The entries a schema defines in full, nested as the schema nests them: (title cobol (kids)).
-   A oneOf property is transparent (its alternatives belong to the object that holds it), a ref
-   placeholder and an untitled node (inner item of an elementary OCCURS) contribute nothing. *)
+   A ref placeholder stands for the oneOf alternative OF THE SAME OBJECT that carries its anchor
+   (marker 404 when there is none; marker 405 when the object holds a different number of
+   alternatives than placeholders); the oneOf property itself and an untitled node (the inner item
+   of an elementary OCCURS) contribute nothing. *)
+Definition alt_anchor (w : snode) : option str :=
+  match w with
+  | SN _ _ (Some a) _ _ => Some a
+  | SN _ _ None _ ((_, SN _ _ (Some a) _ _) :: _) => Some a
+  | _ => None
+  end.
+
 Fixpoint skel (s : snode) : sx :=
   match s with
   | SN _ t _ c props =>
+      let alts : list (option str * sx) :=
+        flat_map (fun p => match p with
+                           | (_, SN kk _ _ _ a) =>
+                               if (kk =? 3)%N then map (fun q => match q with (_, w) => (alt_anchor w, skel w) end) a
+                               else []
+                           end) props in
+      let refs := filter (fun p => match p with (_, SN kk _ _ _ _) => (kk =? 4)%N end) props in
       L [sx_optstr t; sx_optstr c;
          L (flat_map (fun p => match p with
                                | (_, v) =>
                                    match v with
-                                   | SN kk tt _ _ alts =>
-                                       if (kk =? 3)%N then map (fun q => match q with (_, w) => skel w end) alts
-                                       else if (kk =? 4)%N then []
-                                       else match tt with None => [] | Some _ => [skel v] end
+                                   | SN kk ttl anc _ _ =>
+                                       if (kk =? 3)%N then []
+                                       else if (kk =? 4)%N then
+                                         match anc with
+                                         | Some (_ :: u) =>
+                                             match find (fun x => optstr_eqb (fst x) (Some u)) alts with
+                                             | Some x => [snd x]
+                                             | None => [A 404]
+                                             end
+                                         | _ => [A 404]
+                                         end
+                                       else match ttl with None => [] | Some _ => [skel v] end
                                    end
-                               end) props)]
+                               end) props
+            ++ (if Nat.eqb (length alts) (length refs) then [] else [A 405]))]
   end.
 
 (* what the property demands of it: one node per kept entry, nested as the forest, titled with the
